@@ -638,6 +638,35 @@ Proof.
          (gen_adupdates_simple_run stepsize junk dflt ops Hs nkeys niter x)).
 Qed.
 Print Assumptions gen_adupdates_whole_call_is_model.
+
+(* kaczmarz (fixed order), preamble included: the caller passes x and the list rhs; tmp_rans gets one
+   new object per range class, tmp_dom is a new object; the log is the model trace and the caller's x
+   the model iterate -- for every number of operators and every sharing pattern rkey *)
+Theorem gen_kaczmarz_whole_call_is_model :
+  forall (proj : list R -> list R) (junk : string -> list R) (dflt : @kzop R) (ops : list (@kzop R))
+         (rkey : nat -> nat) (nkeys : nat),
+  (forall j, (j < length ops)%nat -> (rkey j < nkeys)%nat) ->
+  forall (niter : nat) (x : list R),
+  exists s, lrun (kzI proj junk dflt ops) rkey (length ops) nkeys kaczmarz_lpre kaczmarz_lbody niter
+              (kz_init dflt ops x) = Some s
+    /\ l_log s = trace (fun x => x) niter (kz_step proj ops) x
+    /\ hget (l_heap s) (OCaller "x") = Some (iter niter (kz_step proj ops) x).
+Proof. exact gen_kaczmarz_run. Qed.
+Print Assumptions gen_kaczmarz_whole_call_is_model.
+
+(* osmlem with default sensitivities, preamble included (data copied into new objects, sensitivities
+   computed, one new temporary per operator): one callback per sub-iteration *)
+Theorem gen_osmlem_whole_call_is_model :
+  forall (eps : R) (junk : string -> list R) (dflt : @emop R) (ops : list (@emop R)) (mdim : nat -> nat),
+  (forall j, (j < length ops)%nat ->
+     em_sens (nth j ops dflt) = em_default_sens eps (em_Aadj (nth j ops dflt)) (mdim j)) ->
+  forall (niter : nat) (x : list R),
+  exists s, lrun (emI eps junk dflt ops mdim) (fun _ => 0%nat) (length ops) 0 osmlem_lpre osmlem_lbody niter
+              (em_init dflt ops x) = Some s
+    /\ l_log s = em_trace eps ops niter x
+    /\ hget (l_heap s) (OCaller "x") = Some (iter niter (em_step eps ops) x).
+Proof. exact gen_osmlem_run. Qed.
+Print Assumptions gen_osmlem_whole_call_is_model.
 Local Close Scope string_scope.
 
 (* ------------------------------------------------------------ non-vacuity *)
